@@ -88,6 +88,7 @@ ASSUMPTIONS = [
     "after the state changed: every query of a history asks py-pde again (make_pde_rhs, make_interpolator, solve ...), "
     "as the property's 'requests' do",
 ]
+MIN_LEGS = {"registry": 100, "pdevars:S": 60, "pdevars:J": 1, "histories:S": 150}
 TRUSTED_EXTRA = ["harness/common/pygraph.py: the serialiser of real objects into model object graphs (my reading of "
                  "which branch of hash_mutable applies; it never calls hash_mutable)"]
 
@@ -3287,6 +3288,12 @@ def rereg_key(h):
             "symptom": "result differs from a fresh process that performed only the last registration"}
 
 
+def hist_what(key):
+    """the group a failing history is reported in (one replay file per group): histories with registrations are grouped by
+    the call site of the last query"""
+    return "history: " + (str(key.get("call_site")) + ": " if "argument" in key else "") + str(key.get("symptom"))
+
+
 def history_key(h, res, mode="S"):
     """which defect a failing history exhibits (for known_findings matching)"""
     ops = h["ops"]
@@ -3373,7 +3380,7 @@ def run_histories(ctx):
                 hh = r.get("shrunk", h)
                 key = history_key(hh, r, mode)
                 ctx.monitor_fail(leg, hh, {"last_result_in_history": r["full"], "failure_class": r.get("class")},
-                                 {"same_call_in_fresh_interpreter": r["fresh"]}, "history: " + str(key.get("symptom")), key=key)
+                                 {"same_call_in_fresh_interpreter": r["fresh"]}, hist_what(key), key=key)
     # a subset in really new interpreters (one history per process), validating the fork shortcut
     from harness.common.lean import BrokenCheck
     t0, c0 = time.time(), _cpu()
@@ -3399,7 +3406,7 @@ def run_histories(ctx):
                 # the forked run of this history agreed: a difference (or a dead interpreter) here is one more failure
                 key = history_key(h, {"one_sided": _crash(a) or _crash(b), "class": hist_class(a, b)}, "S")
                 ctx.monitor_fail("histories:new-interpreter", h, {"last_result_in_history": a, "failure_class": hist_class(a, b)}, {"same_call_in_fresh_interpreter": b},
-                                 "history: " + str(key.get("symptom")), key=key)
+                                 hist_what(key), key=key)
     ctx.extra["t_hist_new"] = [round(time.time() - t0, 1), round(_cpu() - c0, 1)]
 
 
